@@ -52,6 +52,17 @@ def gen(rng, tier):
                 want = dict(STRAT[strat], **LIST[lst])
                 for entry, tuples in (("json", False), ("basic", False), ("basic", True), ("pydiff", False), ("pydiff", True)):
                     cases.append({"f": f, "t": t, "entry": entry, "opts": want, "want": want, "tuples": tuples})
+    # the list options together with a match expression on the command line (the constraint must not cost the trees their flags)
+    for f, t in PAIRS[2:4]:
+        for largv, lst in LIST_SPELLINGS[1:]:
+            for extra in (["--match-unless", "False"], ["--match-if", "True"], ["-u", "len(str(from)) > 99"]):
+                cases.append({"f": f, "t": t, "entry": "cli", "argv": largv + extra, "want": dict(STRAT["auto"], **LIST[lst])})
+    # a mapping with a TUPLE key under strategy `none` (Python-object entry points only): still no pair of different keys
+    for entry in ("basic", "pydiff"):
+        for lst in LIST:
+            want = dict(STRAT["none"], **LIST[lst])
+            cases.append({"f": {"tk": 1, "name": "some long value"}, "t": {"tk": 1, "nome": "some long value"}, "entry": entry, "opts": want,
+                          "want": want, "tuples": False, "tuplekey": "tk"})
     # random documents from the script stream's generator, through a random entry point
     for _ in range(60 if tier == "quick" else 1500):
         a = S.gen_doc(rng)
@@ -118,6 +129,10 @@ def impl(case):
         o = graphtage.BuildOptions(**case["opts"])
         if case.get("tuples"):
             f, t = _tuplify(f), _tuplify(t)
+        if case.get("tuplekey"):
+            tk = case["tuplekey"]
+            f = {(("t", 1) if k == tk else k): v for k, v in f.items()}
+            t = {(("t", 1) if k == tk else k): v for k, v in t.items()}
         if entry == "json":
             from graphtage import json as gj
             A, B = gj.build_tree(json.loads(json.dumps(case["f"])), o), gj.build_tree(json.loads(json.dumps(case["t"])), o)
